@@ -277,11 +277,22 @@ Auth::Basic::Config::decode(char const *proxy_auth, const HttpRequest *request, 
         auth_user = lb;
         assert(auth_user != nullptr);
     } else {
-        /* replace the current cached password with the new one */
         Auth::Basic::User *basic_auth = dynamic_cast<Auth::Basic::User *>(auth_user.getRaw());
         assert(basic_auth);
-        basic_auth->updateCached(local_basic);
-        auth_user = basic_auth;
+        if (basic_auth->credentials() == Auth::Pending && strcmp(local_basic->passwd, basic_auth->passwd) != 0) {
+            /* The helper is being asked about another password of this user and
+             * its verdict will be recorded in the cached entry. Do not replace
+             * the password under that lookup: validate these credentials on
+             * their own (uncached) user object. */
+            debugs(29, 4, "another password of user '" << lb->username() << "' is being verified; not using the cached entry");
+            lb->auth_type = Auth::AUTH_BASIC;
+            lb->expiretime = current_time.tv_sec;
+            auth_user = lb;
+        } else {
+            /* replace the current cached password with the new one */
+            basic_auth->updateCached(local_basic);
+            auth_user = basic_auth;
+        }
     }
 
     /* link the request to the in-cache user */
